@@ -201,7 +201,7 @@ def ref_crc32(data):
     return reg
 
 
-def generated_data_tx(r, rate, conf, n, preambles, cc, sap, payload_kind="random", dst=77, src=5678, fmt="data"):
+def generated_data_tx(r, rate, conf, n, preambles, cc, sap, payload_kind="random", dst=77, src=5678, fmt="data", payload_override=None, retry=False):
     """data transmission built by the real TransmissionGenerator; returns (bursts, meta)"""
     from math import ceil
 
@@ -218,8 +218,32 @@ def generated_data_tx(r, rate, conf, n, preambles, cc, sap, payload_kind="random
         while len(payload) < n:
             payload += bytes([r.choice([0, 0, 0xFF, r.getrandbits(8)])]) * r.choice([1, 1, 2, 3, 4, 7])
         payload = payload[:n]
+    elif payload_kind == "selfcrc":
+        # user data that carries, at the end of one of its (non-last) blocks, the packet CRC-32 of everything before it -- what an application
+        # protocol with its own CRC-32 trailer, or a forwarded DMR packet, looks like from inside
+        payload = bytearray(r.getrandbits(8) for _ in range(n))
+        full = [j * opb for j in range(1, n // opb + 1) if j * opb - 4 > 0 and j * opb <= n]
+        if full:
+            e = r.choice(full)
+            payload[e - 4:e] = ref_crc32(bytes(payload[:e - 4])).to_bytes(4, "little")
+        payload = bytes(payload)
+    elif payload_kind == "tunnel":
+        # user data that is itself DMR block content: the serialised CONFIRMED blocks (serial number, CRC-9, data) of an inner packet of the
+        # same rate, carried as plain octets
+        try:
+            from checks import c04
+
+            icls, itp, inb, _last = c04.rate_cls({"R12": "r12c", "R34": "r34c", "R1": "r1c"}[rate])
+            s0 = r.choice([0, 1, 126, 127, r.randrange(128)])  # serial numbers count up (and wrap) from a seeded start
+            raw = b"".join(icls(data=bytes(r.getrandbits(8) for _ in range(inb)), packet_type=itp, dbsn=(s0 + j) % 128).as_bits().tobytes() for j in range(n // inb + 2))
+        except Exception:
+            raw = b""
+        payload = (raw + bytes(r.getrandbits(8) for _ in range(n)))[:n]
     else:
         payload = bytes(i & 255 for i in range(n))
+    if payload_override is not None:
+        payload = payload_override
+        n = len(payload)
     nb = max(1, ceil(1 + (n - olb) / opb))
     poc = (nb - 1) * opb + olb - n
     if fmt == "sdd":
@@ -238,8 +262,9 @@ def generated_data_tx(r, rate, conf, n, preambles, cc, sap, payload_kind="random
     else:
         hdr = DataHeader(dpf=DataPacketFormats.DataPacketConfirmed if conf else DataPacketFormats.DataPacketUnconfirmed, sap_identifier=sap,
                          is_response_requested=conf, pad_octet_count=poc, llid_destination=dst, llid_source=src, blocks_to_follow=nb,
-                         full_message_flag=FullMessageFlag.FirstTryToCompletePacket, resynchronize_flag=ResynchronizeFlag(0) if conf else None,
-                         fragment_sequence_number=8, is_group=r.random() < 0.5)
+                         full_message_flag=FullMessageFlag(0) if retry else FullMessageFlag.FirstTryToCompletePacket,
+                         resynchronize_flag=ResynchronizeFlag(0) if conf else None,
+                         fragment_sequence_number=8, is_group=False if retry is not False else r.random() < 0.5)
     userdata = payload
     if r.random() < 0.15:
         from okdmr.dmrlib.utils.bytes_interface import BytesInterface
@@ -418,6 +443,7 @@ class Receiver:
         self.log = core.EventLog()
         self.n = 0
         self.reuse_parsed = {} if knobs.get("reuse_parsed") else None
+        self.last_was_reused = False
         # a second, independent watcher in the same process (another receiver site; own observer, nothing it reports is used) that hears the
         # same bursts a few bursts late
         self.twin = TransmissionWatcher(observers=[Rec("twin", EntropySeam(7))]) if knobs.get("twin_lag") else None
@@ -434,6 +460,7 @@ class Receiver:
             # an application that parses each distinct burst once and hands the SAME Burst object to the tracker whenever those octets arrive
             # again (duplicates, replays of a recording, repeated idle bursts)
             key = (bytes(data), bt)
+            self.last_was_reused = key in self.reuse_parsed
             if key not in self.reuse_parsed:
                 self.reuse_parsed[key] = self._parse(data, bt)
             else:
@@ -552,4 +579,5 @@ class Receiver:
         tr = self.tracker(term, ts)
         self.log.add(self.n, f"{term}/{ts}", cls, (data.hex(), [e[0] for e in evs], raised, getattr(out, "sequence_no", None),
                                                   getattr(getattr(out, "voice_burst", None), "name", None), tr.type.name if tr else None))
-        return {"burst": b, "cls": cls, "key": key, "type0": type0, "events": evs, "out": out, "raised": raised, "tracker": tr, "op": op_i}
+        return {"burst": b, "cls": cls, "key": key, "type0": type0, "events": evs, "out": out, "raised": raised, "tracker": tr, "op": op_i,
+                "reused": self.reuse_parsed is not None and self.last_was_reused and parsed is False}
